@@ -225,6 +225,11 @@ class System:
         is_etsd = self.config[0] == "etsd"
         objs = [("outermost", top)] + [("underlying result %d" % i, l) for i, l in enumerate(impl.leaves)]
         for label, o in objs:
+            # (ExtendedToStreamDecorator's own verdict is that of a StreamSummary, for which the pinned
+            # suite specifies the Python 2.7 contract - an unexpected success does not fail the run,
+            # TestStreamToExtendedContract.test_addUnexpectedSuccess_was_successful - so it is not
+            # one of "testtools' own results" of the wasSuccessful clause; only its fail-fast/stop
+            # behaviour is checked)
             if not is_etsd:
                 try:
                     ws = o.wasSuccessful()
